@@ -26,6 +26,7 @@ import (
 	"bytes"
 	"encoding/binary"
 	"fmt"
+	"os"
 	"sort"
 	"testing"
 	"time"
@@ -64,7 +65,7 @@ func (vfC31Fake) Unmarshal(p []byte) ([]byte, error) {
 	}
 	return p[1:], nil
 }
-func (vfC31Fake) IsPartitionHead(p []byte) bool         { return len(p) > 0 && p[0]&1 != 0 }
+func (vfC31Fake) IsPartitionHead(p []byte) bool { return len(p) > 0 && p[0]&1 != 0 }
 func (f vfC31Fake) IsPartitionTail(_ bool, p []byte) bool {
 	return !f.noTail && len(p) > 0 && p[0]&2 != 0
 }
@@ -347,7 +348,7 @@ func vfC31Run(v *vfT, c vfC31Case) {
 		if q < newest && sb.active.empty() && sb.lastSampleTimestamp != nil {
 			// In-package view: the builder has built at least one sample and holds no unconsumed
 			// packet; the packet being pushed is older than the newest one pushed so far.
-			if v.col.known[vfC31KnownStaleClass] {
+			if v.col.known[vfC31KnownStaleClass] && os.Getenv("VERIF_REPLAY") == "" { // (a replay must show the finding itself)
 				// known finding: in that state the builder no longer knows what it consumed, takes the
 				// old packet (duplicate or late original) for new data and may emit it again / out of
 				// order.  The input class is excluded so that the rest of the space is still searched.
@@ -514,7 +515,7 @@ func vfC31GenWrapDelay(v *vfT) vfC31Case {
 	// the wrap falls between frame w-1 and frame w
 	w := rapid.IntRange(1, nf-1).Draw(v.R, "wrapFrame")
 	r := uint64(rapid.IntRange(0, int(c.Frames[w].TSStep)-1).Draw(v.R, "postWrapTS")) // timestamp of frame w (just after the wrap)
-	c.TS0 = uint32(r - cum[w])                                                         // mod 2^32
+	c.TS0 = uint32(r - cum[w])                                                        // mod 2^32
 	c.Start = rapid.SampledFrom([]uint16{0, 1000, 65530, 32760}).Draw(v.R, "start")
 	if rapid.Bool().Draw(v.R, "startWrapToo") {
 		c.Start = uint16(65536 - firstIdx[w]) // sequence numbers wrap at the same place
